@@ -20,6 +20,12 @@ pub enum SchedSpec {
     Pct { seed: u64, depth: u32, est_steps: u64 },
     /// random walk that refuses to run a victim task for windows of steps
     Stall { seed: u64, window: u32 },
+    /// one or two tasks are taken out of the running *while they are in the middle of
+    /// something* (the task that is running at a drawn moment) and do not run again while
+    /// anybody else can -- the others race ahead by as many records as there are; the
+    /// victim runs only when everybody else is blocked (or spins), and is released after a
+    /// drawn number of steps.  Everybody else is scheduled by a sticky random walk.
+    Starve { seed: u64, est_steps: u64, victims: u8 },
     /// follow a recorded decision list exactly
     Replay { decisions: Vec<u32> },
 }
@@ -32,6 +38,7 @@ impl SchedSpec {
             SchedSpec::Sticky { .. } => "sticky",
             SchedSpec::Pct { .. } => "pct",
             SchedSpec::Stall { .. } => "stall",
+            SchedSpec::Starve { .. } => "starve",
             SchedSpec::Replay { .. } => "replay",
         }
     }
@@ -50,6 +57,10 @@ pub struct SchedLog {
     pub schedule_hash: u64,
     pub stall_windows: u64,
     pub priority_changes: u64,
+    /// starve scheduler: victims taken out, and steps at which a victim had to run
+    /// because nobody else could
+    pub starve_victims: u64,
+    pub starve_forced_steps: u64,
     pub diverged: bool,
 }
 
@@ -66,6 +77,10 @@ pub struct SimScheduler {
     // stall
     victim: Option<u32>,
     stall_until: u64,
+    // starve
+    starve_starts: Vec<(u64, u64)>,
+    starved: Vec<(u32, u64)>,
+    yield_streak: u64,
 }
 
 impl SimScheduler {
@@ -75,7 +90,8 @@ impl SimScheduler {
             SchedSpec::Random { seed }
             | SchedSpec::Sticky { seed, .. }
             | SchedSpec::Pct { seed, .. }
-            | SchedSpec::Stall { seed, .. } => *seed,
+            | SchedSpec::Stall { seed, .. }
+            | SchedSpec::Starve { seed, .. } => *seed,
             _ => 0,
         };
         let mut rng = Rng::new(seed ^ 0x5ced_5ced_5ced_5ced);
@@ -92,6 +108,26 @@ impl SimScheduler {
                 change_points.push(p.max(1));
             }
         }
+        let mut starve_starts: Vec<(u64, u64)> = Vec::new();
+        if let SchedSpec::Starve { est_steps, victims, .. } = &spec {
+            // when a victim is taken (in steps with a choice, log-uniform over the estimated
+            // length of the run: early moments are as likely as late ones on a log scale, so
+            // "right at the start, with all the records still to come" is common), and for
+            // how long (log-uniform between an eighth and eight times the estimate)
+            let est = (*est_steps).max(16) as f64;
+            let close = *victims & 16 != 0;
+            for i in 0..(*victims & 15).max(1) {
+                let u = (rng.next_u64() >> 11) as f64 / (1u64 << 53) as f64;
+                let mut at = est.powf(u).floor() as u64;
+                if close && i > 0 {
+                    at = starve_starts[0].0 + 1 + rng.below(60);
+                }
+                let v = (rng.next_u64() >> 11) as f64 / (1u64 << 53) as f64;
+                let len = (est / 8.0 * 64f64.powf(v)).floor() as u64;
+                starve_starts.push((at.max(1), len.max(8)));
+            }
+            starve_starts.sort();
+        }
         (
             SimScheduler {
                 spec,
@@ -104,6 +140,9 @@ impl SimScheduler {
                 low_next: 1 << 20,
                 victim: None,
                 stall_until: 0,
+                starve_starts,
+                starved: Vec::new(),
+                yield_streak: 0,
             },
             log,
         )
@@ -153,6 +192,8 @@ impl Scheduler for SimScheduler {
         let mut diverged = false;
         let mut stalls = 0u64;
         let mut prio_changes = 0u64;
+        let mut starve_new = 0u64;
+        let mut starve_forced = 0u64;
         let pinned = match cur {
             Some(c) if crate::real_guards_held() > 0 && ids.contains(&c) && !matches!(self.spec, SchedSpec::Replay { .. }) => Some(c),
             _ => None,
@@ -222,6 +263,69 @@ impl Scheduler for SimScheduler {
                         }
                     }
                 }
+                SchedSpec::Starve { .. } => {
+                    self.starved.retain(|(_, until)| step < *until);
+                    while let Some(&(at, len)) = self.starve_starts.first() {
+                        if choice_step + 1 < at {
+                            break;
+                        }
+                        self.starve_starts.remove(0);
+                        // the task that is running right now is in the middle of something;
+                        // the main task (0) mostly waits for the others and is a victim
+                        // only now and then
+                        let free: Vec<u32> = all_ids
+                            .iter()
+                            .copied()
+                            .filter(|t| !self.starved.iter().any(|(v, _)| v == t))
+                            .collect();
+                        let workers: Vec<u32> = free.iter().copied().filter(|t| *t != 0).collect();
+                        let pick = match cur {
+                            Some(c) if c != 0 && free.contains(&c) && self.rng.chance(4, 5) => Some(c),
+                            _ if !workers.is_empty() && !self.rng.chance(1, 10) => Some(workers[self.rng.below(workers.len() as u64) as usize]),
+                            _ if !free.is_empty() => Some(free[self.rng.below(free.len() as u64) as usize]),
+                            _ => None,
+                        };
+                        if let Some(v) = pick {
+                            self.starved.push((v, step.saturating_add(len)));
+                            starve_new += 1;
+                        }
+                    }
+                    if is_yielding {
+                        self.yield_streak += 1;
+                    } else {
+                        self.yield_streak = 0;
+                    }
+                    let cands: Vec<u32> = ids
+                        .iter()
+                        .copied()
+                        .filter(|t| !self.starved.iter().any(|(v, _)| v == t))
+                        .collect();
+                    // everybody else spins (yield_now after yield_now): they wait for the
+                    // victim, which then runs -- a spin-wait must end under this scheduler as
+                    // it does under any fair one
+                    let spinning = self.yield_streak > 2 * (all_ids.len() as u64 + 2);
+                    if cands.is_empty() || (spinning && cands.len() < ids.len()) {
+                        let vs: Vec<u32> = ids
+                            .iter()
+                            .copied()
+                            .filter(|t| self.starved.iter().any(|(v, _)| v == t))
+                            .collect();
+                        self.yield_streak = 0;
+                        if !self.starved.is_empty() {
+                            starve_forced += 1;
+                        }
+                        match cur {
+                            Some(c) if vs.contains(&c) => c,
+                            _ if !vs.is_empty() => vs[self.rng.below(vs.len() as u64) as usize],
+                            _ => ids[self.rng.below(ids.len() as u64) as usize],
+                        }
+                    } else {
+                        match cur {
+                            Some(c) if cands.contains(&c) && self.rng.chance(3, 4) => c,
+                            _ => cands[self.rng.below(cands.len() as u64) as usize],
+                        }
+                    }
+                }
                 SchedSpec::Replay { decisions } => match decisions.get(step as usize) {
                     Some(d) if ids.contains(d) => *d,
                     _ => {
@@ -255,6 +359,8 @@ impl Scheduler for SimScheduler {
         }
         l.stall_windows += stalls;
         l.priority_changes += prio_changes;
+        l.starve_victims += starve_new;
+        l.starve_forced_steps += starve_forced;
         l.diverged |= diverged;
         self.last = Some(chosen);
         Some(TaskId::from(chosen as usize))
